@@ -127,6 +127,11 @@ def gen_api_case(rng):
     if rng.random() < 0.4:  # an ambiguous or unknown spelling must not be accepted
       bad = rng.choice([sel.split('.')[-1], 'zz.' + sel])
       ops.append({'op': 'bind', 'scope': '', 'sel': bad, 'arg': arg, 'val': 1, '_form': 'tuple', 'block': False})
+    if rng.random() < 0.5:  # get_bindings / get_configurable through a spelling: unique, ambiguous or unknown
+      parts = sel.split('.')
+      q = rng.choice(['.'.join(parts[-k:]) for k in range(1, len(parts) + 1)] + ['zz.' + sel])
+      ops.append({'op': 'getbq', 'q': q, 'scope': rng.choice(scopes), 'inherit': rng.random() < 0.5,
+                  '_also_get_configurable': True})
     ops.append({'op': 'config'})
   # references under partial spellings: a macro addressed as @name/macro(), a configurable as @suffix
   if rng.random() < 0.6:
@@ -245,7 +250,7 @@ def _matches(keys, q):
 def oracle(case, impl):
   """Naive set-of-names statement of C08 evaluated on the implementation's answers."""
   if case['dom'] == 'gin':
-    return refmodel.check_history(case, impl, {'bind', 'query', 'getb', 'config', 'finalize', 'locked'})
+    return refmodel.check_history(case, impl, {'bind', 'query', 'getb', 'getbq', 'config', 'finalize', 'locked'})
   maps = {}
   for k, (op, res) in enumerate(zip(case['ops'], impl['out'])):
     name, i = op[0], op[1]
